@@ -34,6 +34,23 @@ func c03Marshal(n tv.Node) (b []byte, panicked string) {
 	return ttlv.MarshalTTLV(&v), ""
 }
 
+// c03Reused: the same tree on ONE encoder reused (after Clear) for every tree of the run: the output
+// is still the conformant encoding (bit for bit what a new encoder writes: padding included).
+var c03Shared = ttlv.NewTTLVEncoder()
+
+func c03MarshalReused(n tv.Node) (b []byte, panicked string) {
+	defer func() {
+		if r := recover(); r != nil {
+			panicked = fmt.Sprint(r)
+			c03Shared = ttlv.NewTTLVEncoder()
+		}
+	}()
+	v := tv.ToValue(n)
+	c03Shared.Clear()
+	c03Shared.Any(&v)
+	return append([]byte{}, c03Shared.Bytes()...), ""
+}
+
 func c03Trees(c *h.Ctx) []tv.Node {
 	if c.Replay != nil {
 		cs, _ := c.Replay["case"].(map[string]any)
@@ -94,6 +111,9 @@ func driveC03(c *h.Ctx) error {
 			continue
 		}
 		caseJSON["encoded_hex"] = hex.EncodeToString(b)
+		if b2, p2 := c03MarshalReused(n); p2 != "" || !bytes.Equal(b, b2) {
+			c.Fail("C03/reused-encoder-output-differs", fmt.Sprintf("on a reused (cleared) encoder the encoding is %x %s", b2, p2), caseJSON)
+		}
 		ns, err := tv.SpecParse(b)
 		switch {
 		case err != nil:
